@@ -117,6 +117,10 @@ def _extract_compact(value: bytes, payload: t.Optional[bytes | str] = None) -> t
         return True
 
     if payload:
+        # a detached payload comes with an empty payload segment; a segment that
+        # is there must be the payload, it is not covered by anything otherwise
+        if payload_segment and payload_segment != to_bytes(payload):
+            raise ValueError("Invalid JSON Web Signature")
         obj = CompactSignature(protected, to_bytes(payload))
     else:
         obj = CompactSignature(protected, payload_segment)
